@@ -295,7 +295,8 @@ class OPAdapter(RoutingAdapter):
     def extra_c06(self, ctx, tier, items):
         # the generic single-fault corruptions (vt/envs/_base.py), on a sample of the episodes in the thorough tier (budget)
         done = [it for it in items if it.ep.complete]
-        sub = items if tier == "quick" or len(done) <= 150 else ctx.rng.sample(done, 150)
+        cap_n = 40 if tier == "quick" else 150
+        sub = items if len(done) <= cap_n else ctx.rng.sample(done, cap_n)
         out = super().extra_c06(ctx, tier, sub) or {}
         rng = ctx.rng
         triples = []
